@@ -62,6 +62,25 @@ def _class_attr_sources(repo: Repo, f: FunctionInfo, attr: str) -> List[ast.AST]
                     for t in n.targets:
                         if is_self_attr(t, attr, selfn):
                             out.append(n.value)
+                        elif isinstance(t, (ast.Tuple, ast.List)):
+                            # self.a, self.b = <tuple> | helper(...)  : the component that lands in the field
+                            for i, el in enumerate(t.elts):
+                                if not is_self_attr(el, attr, selfn):
+                                    continue
+                                v = n.value
+                                if isinstance(v, (ast.Tuple, ast.List)) and len(v.elts) == len(t.elts):
+                                    out.append(v.elts[i])
+                                    continue
+                                h = None
+                                if isinstance(v, ast.Call) and isinstance(v.func, ast.Attribute) and isinstance(v.func.value, ast.Name) and v.func.value.id in (selfn, "self", "cls", c.name):
+                                    h = c.find_method(v.func.attr)
+                                elif isinstance(v, ast.Call) and isinstance(v.func, ast.Name):
+                                    h = next((g for g in repo.functions if g.module is m.module and g.cls is None and g.name == v.func.id), None)
+                                rets = [r.value for r in walk_no_nested(h.node) if isinstance(r, ast.Return) and r.value is not None] if h is not None else []
+                                if rets and all(isinstance(r, ast.Tuple) and len(r.elts) == len(t.elts) for r in rets):
+                                    out += [r.elts[i] for r in rets]
+                                else:
+                                    out.append(ast.Name(id="__unreadable__", ctx=ast.Load()))
     return out
 
 
@@ -213,6 +232,9 @@ def rule_splice(repo: Repo) -> List[Ob]:
     for f in repo.functions:
         if not f.relpath.startswith(SCOPE_PREFIXES) or f.name in DISPLAY_FUNCS:
             continue
+        from ..shape import only_reached_from
+        if only_reached_from(repo, f, lambda g: g.name in DISPLAY_FUNCS):
+            continue          # a private helper of __str__ / print_pretty builds display text, not text that is parsed again
         defs = None
         for n in _top_level_templates(f):
             if defs is None:
@@ -451,9 +473,11 @@ def rule_sanitiser(repo: Repo) -> List[Ob]:
     ok = False
     msg = "no re.sub sanitiser"
     line = f.node.lineno
+    from ..shape import expanded
+    fx = expanded(repo, f)           # the renaming loop may live in a helper of the generator
     # re.sub(pattern, repl, subject)  or  COMPILED.sub(repl, subject) with COMPILED = re.compile(pattern) at module / class level
     found = None
-    for c in walk_no_nested(f.node):
+    for c in walk_no_nested(fx):
         if not (isinstance(c, ast.Call) and call_name(c) == "sub" and isinstance(c.func, ast.Attribute)):
             continue
         recv = c.func.value
@@ -469,7 +493,7 @@ def rule_sanitiser(repo: Repo) -> List[Ob]:
                         found = (c, st.value.args[0], c.args[0], c.args[1])
             if found:
                 break
-    other_filters = [c for c in walk_no_nested(f.node) if isinstance(c, ast.Call) and call_name(c) in ("translate", "filter", "isalnum", "isidentifier", "sub", "replace")]
+    other_filters = [c for c in walk_no_nested(fx) if isinstance(c, ast.Call) and call_name(c) in ("translate", "filter", "isalnum", "isidentifier", "sub", "replace")]
     if found is None and other_filters:
         obs.append(inconclusive("C-sanitiser", "bayesnet/code_generator.py::__generate_mapping__::charclass", f.relpath, other_filters[0].lineno, f.qualname,
                                 f"name filtering through `{src(other_filters[0])[:50]}` not recognised"))
@@ -493,13 +517,13 @@ def rule_sanitiser(repo: Repo) -> List[Ob]:
     if found is not None or not other_filters:
         obs.append(Ob("C-sanitiser", "bayesnet/code_generator.py::__generate_mapping__::charclass", f.relpath, line, f.qualname, ok, msg))
     # names must also be made unique
-    ucalls = [c for c in walk_no_nested(f.node) if isinstance(c, ast.Call) and call_name(c) == "get_unique_name"]
+    ucalls = [c for c in walk_no_nested(fx) if isinstance(c, ast.Call) and call_name(c) == "get_unique_name"]
     uniq = False
     why = "two network variables may collapse to one program variable (no uniqueness step)"
     if ucalls and ucalls[0].args:
         a0 = ucalls[0].args[0]
         # the mapping that receives the result
-        stores = [n for n in walk_no_nested(f.node) if isinstance(n, ast.Assign) and isinstance(n.targets[0], ast.Subscript)]
+        stores = [n for n in walk_no_nested(fx) if isinstance(n, ast.Assign) and isinstance(n.targets[0], ast.Subscript)]
         maps = {src(n.targets[0].value) for n in stores}
         uniq = isinstance(a0, ast.Call) and call_name(a0) == "values" and src(a0.func.value) in maps
         why = ("sanitised names are made unique against the program names already given (the values of the mapping)" if uniq else
